@@ -17,13 +17,22 @@ ASSUMPTIONS = [
     "getters are pure functions from a fixed registry",
 ]
 
+def _num(f):
+    """total: numbers are transformed, anything else (None, booleans) passes"""
+    return lambda x: f(x) if isinstance(x, (int, float)) and not isinstance(x, bool) else x
+
+
 FUNCS = {
-    "add1": lambda x: x + 1,
-    "dbl": lambda x: x * 2,
-    "sub3": lambda x: x - 3,
-    "neg": lambda x: -x,
-    "sq": lambda x: x * x,
+    "add1": _num(lambda x: x + 1),
+    "dbl": _num(lambda x: x * 2),
+    "sub3": _num(lambda x: x - 3),
+    "neg": _num(lambda x: -x),
+    "sq": _num(lambda x: x * x),
     "id": lambda x: x,
+    # getters whose result is None / depends on None (a value, not "no value")
+    "none_if_odd": lambda x: None if isinstance(x, int) and not isinstance(x, bool) and x % 2 else x,
+    "is_none": lambda x: x is None,
+    "zero_if_none": lambda x: 0 if x is None else x,
 }
 TYPES = ["ta", "tb", "tc", "td", "te", "tf", "tg", "th", "ti", "tj"]
 ATTRS = ["unit", "latex_name", "range", "color"]
